@@ -276,7 +276,7 @@ def gen_profile_table():
                         v = st.value
                         ok = (isinstance(v, ast.BinOp) and isinstance(v.op, op)
                               and isinstance(v.left, ast.Attribute) and v.left.attr == key
-                              and factor_name in ast.unparse(v.right))
+                              and ast.unparse(v.right) in (factor_name, 'self.' + factor_name))
                         if not ok:
                             raise Unsupported(f'ProfileBase.{method}: unexpected rescale of {key}: {ast.unparse(v)}')
                         if cond_key not in (None, key):
@@ -897,14 +897,16 @@ FORWARD_SCOPE = {'C02': ['aperture/core.py', 'aperture/photometry.py', 'aperture
                  'C15': ['aperture/photometry.py', 'aperture/stats.py', 'psf/photometry.py', 'background/background_2d.py', 'utils/errors.py'],
                  'C16': ['aperture/stats.py'],
                  'C18': ['datasets/images.py', 'psf/photometry.py', 'psf/utils.py'],
-                 'C19': ['profiles/core.py', 'profiles/radial_profile.py', 'profiles/curve_of_growth.py']}
+                 'C19': ['profiles/core.py', 'profiles/radial_profile.py', 'profiles/curve_of_growth.py'],
+                 'C20': ['isophote/ellipse.py', 'isophote/fitter.py', 'isophote/sample.py', 'isophote/geometry.py', 'isophote/isophote.py',
+                         'isophote/model.py', 'isophote/harmonics.py', 'isophote/integrator.py']}
 
 
 def _forward_rows():
     """rows (file, owner, callee, missing parameter): a call that delegates to another photutils function / method / constructor
     (resolved by its unique name) while NOT passing on a value the caller holds under the callee's own parameter name -
-    either one of the caller's parameters (when the call forwards at least two of them) or a `self.<name>` attribute set in
-    `__init__`.  Calls with `**kwargs` are not analysed."""
+    either one of the caller's parameters (when the call forwards at least two of them), a local variable assigned in the caller,
+    or a `self.<name>` attribute set in `__init__`.  Calls with `**kwargs` are not analysed."""
     import glob
     root = os.path.join(REPO, 'photutils')
     files = sorted(f for f in glob.glob(root + '/**/*.py', recursive=True) if '/tests/' not in f and '/extern/' not in f)
@@ -955,6 +957,20 @@ def _forward_rows():
                         shared = [p_ for p_ in P if p_ in Q]
                         if len([p_ for p_ in shared if p_ in fwd]) >= 2:
                             rows += [(rel, n.name, name, p_) for p_ in shared if p_ not in fwd]
+        # a LOCAL variable of the caller that carries the callee's own parameter name and is not passed on
+        # (seed C20-r7: `minimum_amplitude_sample.update()` without the local `fixed_parameters`)
+        for n in ast.walk(t):
+            if isinstance(n, ast.FunctionDef):
+                loc = {tg.id for x in ast.walk(n) if isinstance(x, ast.Assign) for tg in x.targets if isinstance(tg, ast.Name)}
+                if not loc:
+                    continue
+                for c in ast.walk(n):
+                    if isinstance(c, ast.Call):
+                        name, Q = callee_of(c)
+                        if name is None:
+                            continue
+                        fwd = set(Q[:len(c.args)]) | {k.arg for k in c.keywords}
+                        rows += [(rel, n.name, name, q_) for q_ in Q if q_ in loc and q_ not in fwd]
         for cls in [n for n in t.body if isinstance(n, ast.ClassDef)]:
             attrs = set()
             for m in cls.body:
